@@ -558,7 +558,10 @@ func (g *topoGen) typeDef(mask int, edge bool) *topology.TopologyHWcTypeDef {
 		}
 	}
 	if mask&1024 != 0 {
-		td.Render = []string{"txt", "hwcid", "txt,hwcid", "x"}[r.Intn(4)]
+		// every option the renderer knows, alone and combined, plus tokens that merely contain or resemble one
+		opts := []string{"txt", "hwcid", "txt,hwcid", "x", "invtxt", "txt,invtxt", "invtxt,hwcid", "hwcid,invtxt,txt", "txt90", "txtx", "xhwcid",
+			" txt", "txt ", "txt, hwcid", "TXT", ",", "txt,,hwcid", "invtxt,x"}
+		td.Render = opts[r.Intn(len(opts))]
 	}
 	return td
 }
